@@ -26,7 +26,12 @@ RULE = ("seeded inputs: arrays of 0..2000 (thorough: ..20000) events drawn as un
         "count == min(request, eligible) (all eligible for 0), no invalid value when excluded or "
         "when enough valid ones exist, same result when repeated after disturbing the global "
         "random state. Dataset level: get_downsampled_scatter(ret_mask=True) under random filters "
-        "and linear/log scales, and ds.filter.all with 'limit events'. distinct = distinct "
+        "and linear/log scales, and ds.filter.all with 'limit events'; request SEQUENCES on one "
+        "dataset (identical requests repeated after every returned x / y / mask was overwritten in "
+        "place, with and without active filters, ret_mask on/off, interleaved with filter changes "
+        "- many to a different event set of the same size (manual swap, shifted index range) - "
+        "and 'limit events'): every result must equal the undecorated pure function on the "
+        "currently specified selection and ds.filter.all that of a fresh dataset. distinct = distinct "
         "(function, input, request, mode) with 0 < request < eligible (thinning really happens) "
         "or padding with invalid points.")
 TRUSTED_BASE = [
@@ -115,8 +120,67 @@ def pick_request(rng, n, v):
     return rng.choice(cands)
 
 
+def gen_seq(rng, thorough):
+    """a request sequence on ONE dataset: scatter requests (identical ones repeated, every returned
+    array mutated in place afterwards), interleaved with filter changes – many of them to a
+    different event set of the same size – and 'limit events'"""
+    n = rng.choice([4, 6, 9, 14, 25, 40, 80 if thorough else 30])
+    pa = rng.choice([0, 0, 0.1, 0.3])
+    a = inject_invalid(rng, gen_values(rng, n, rng.choice(KINDS)), pa)
+    b = inject_invalid(rng, gen_values(rng, n, rng.choice(KINDS)), rng.choice([0, 0, 0.1]))
+    if rng.random() < 0.5:
+        a = [abs(x) + 0.5 if math.isfinite(x) else x for x in a]
+        b = [abs(x) + 0.5 if math.isfinite(x) else x for x in b]
+    pool = []
+    for _ in range(rng.randint(1, 3)):
+        k = rng.choice([0, 1, max(n // 3, 1), max(n // 2, 1), max(n - 1, 1), n, n + 2,
+                        rng.randint(1, n)])
+        pool.append([k, int(rng.random() < 0.5), rng.choice(["linear", "linear", "log"]),
+                     rng.choice(["linear", "linear", "log"])])
+    manual = [True] * n
+    rng_idx = None           # [lo, hi] on `index` (1-based, inclusive) or None
+    steps = []
+    quiet = rng.random() < 0.5          # start with a phase without any filter
+    last = None
+    for j in range(rng.randint(4, 14)):
+        r = rng.random()
+        if r < 0.5 or (quiet and j < 3):
+            req = last if (last is not None and rng.random() < 0.5) else rng.choice(pool)
+            last = req
+            steps.append(["scatter"] + list(req) + [int(rng.random() < 0.7), int(rng.random() < 0.85)])
+        elif r < 0.66:
+            inc = [i for i in range(n) if manual[i]]
+            exc = [i for i in range(n) if not manual[i]]
+            if inc and exc and rng.random() < 0.6:       # swap: same cardinality
+                i, k2 = rng.choice(inc), rng.choice(exc)
+                manual[i], manual[k2] = False, True
+                steps.append(["manual", [[i, 0], [k2, 1]]])
+            else:
+                i = rng.randrange(n)
+                manual[i] = not manual[i]
+                steps.append(["manual", [[i, int(manual[i])]]])
+        elif r < 0.80:
+            if rng_idx is not None and rng.random() < 0.6:   # shift: same cardinality
+                sh = rng.choice([-1, 1])
+                rng_idx = [rng_idx[0] + sh, rng_idx[1] + sh]
+            elif rng_idx is not None and rng.random() < 0.3:
+                rng_idx = None
+            else:
+                lo = rng.randint(1, max(n - 2, 1))
+                rng_idx = [lo, lo + rng.randint(1, max(n // 2, 1))]
+            steps.append(["range", rng_idx])
+        elif r < 0.94:
+            steps.append(["limit", rng.choice([0, 1, 2, max(n // 3, 1), max(n // 2, 1), n, n + 1])])
+        else:
+            steps.append(["reset"])          # min/max keys survive reset_filter (O3)
+            manual = [True] * n
+    return {"fn": "seq", "a": [tok(x) for x in a], "b": [tok(x) for x in b], "steps": steps}
+
+
 def gen_case(rng, thorough, fn=None):
-    fn = fn or rng.choice(["grid", "grid", "grid", "rand", "ds", "limit"])
+    fn = fn or rng.choice(["grid", "grid", "grid", "rand", "ds", "limit", "seq", "seq"])
+    if fn == "seq":
+        return gen_seq(rng, thorough)
     n = gen_size(rng, thorough)
     if fn in ("ds", "limit"):
         n = min(n, 400)
@@ -345,8 +409,173 @@ def run_ds(case, rec=None):
         return ("ok " + bits(m)).strip(), fails, {"all": allm, "xs": xs, "ys": ys}
 
 
+def _clear_memo():
+    """every sequence starts from an empty `dclab.cached.Cache` (one case = one fresh process)"""
+    try:
+        from dclab import cached
+        cached.Cache._cache.clear()
+        del cached.Cache._keys[:]
+    except Exception:  # noqa
+        pass
+
+
+def _same(x, y):
+    x, y = np.asarray(x), np.asarray(y)
+    return x.shape == y.shape and x.dtype == y.dtype and x.tobytes() == y.tobytes()
+
+
+def run_seq(case, rec=None):
+    """request sequence on one dataset; every result must equal that of the pure functions on the
+    currently specified selection, and that of a fresh dataset configured identically"""
+    dclab = common.import_dclab()
+    from dclab.rtdc_dataset import RTDCBase
+    from dclab import downsampling as so
+    _clear_memo()
+    fails = []
+    a = np.array([untok(t) for t in case["a"]], dtype=np.float64)
+    b = np.array([untok(t) for t in case["b"]], dtype=np.float64)
+    n = len(a)
+    trace = []
+    with np.errstate(all="ignore"):
+        try:
+            ds = dclab.new_dataset({"area_um": a.copy(), "deform": b.copy()})
+        except Exception as e:  # noqa
+            return "setup-" + common.err_class(e), [f"dataset setup raised {e!r}"[:120]]
+        manual = np.ones(n, dtype=bool)
+        rng_idx, limit = None, 0
+        index = np.arange(1, n + 1)
+
+        def expected_all():
+            pre = manual.copy()
+            if rng_idx is not None:
+                pre &= (index >= rng_idx[0]) & (index <= rng_idx[1])
+            q = int(pre.sum())
+            if limit > 0 and q > limit:
+                _d, idx = so.downsample_rand(np.ones(q, dtype=bool), samples=limit, ret_idx=True)
+                full = np.zeros(n, dtype=bool)
+                full[np.where(pre)[0]] = idx
+                return full, pre
+            return pre, pre
+
+        def fresh_all():
+            ds2 = dclab.new_dataset({"area_um": a.copy(), "deform": b.copy()})
+            ds2.filter.manual[:] = manual
+            if rng_idx is not None:
+                ds2.config["filtering"]["index min"] = rng_idx[0]
+                ds2.config["filtering"]["index max"] = rng_idx[1]
+            ds2.config["filtering"]["limit events"] = limit
+            ds2.apply_filter()
+            return np.array(ds2.filter.all, dtype=bool)
+
+        for si, st in enumerate(case["steps"]):
+            kind = st[0]
+            try:
+                if kind == "scatter":
+                    _k, k, ri, xsc, ysc, ret_mask, mutate = st
+                    allm, _pre = expected_all()
+                    xf, yf = a[allm], b[allm]
+                    xs = RTDCBase._apply_scale(xf, xsc, "area_um")
+                    ys = RTDCBase._apply_scale(yf, ysc, "deform")
+                    try:        # the pure function (undecorated, recomputed)
+                        _x, _y, idx = so.downsample_grid.func(xs.copy(), ys.copy(), samples=k,
+                                                              remove_invalid=bool(ri), ret_idx=True)
+                        want = "ok"
+                    except Exception as e:  # noqa
+                        want = common.err_class(e)
+                    try:
+                        if rec is not None:
+                            with rec:
+                                out = ds.get_downsampled_scatter(
+                                    xax="area_um", yax="deform", downsample=k, xscale=xsc, yscale=ysc,
+                                    remove_invalid=bool(ri), ret_mask=bool(ret_mask))
+                        else:
+                            out = ds.get_downsampled_scatter(
+                                xax="area_um", yax="deform", downsample=k, xscale=xsc, yscale=ysc,
+                                remove_invalid=bool(ri), ret_mask=bool(ret_mask))
+                        got = "ok"
+                    except Exception as e:  # noqa
+                        got = common.err_class(e)
+                    trace.append(got)
+                    if got == "ok" and want != "ok":
+                        # the pure function raises (open findings F16/F17) but the dataset level
+                        # answers: acceptable iff the answer has the count the property demands
+                        good = valid(xs) & valid(ys)
+                        exp = expected_count(len(xs), int(good.sum()), k, bool(ri))
+                        if len(out[0]) != exp or len(out[1]) != exp:
+                            fails.append(f"step {si} {st}: {len(out[0])} events returned, expected {exp}")
+                        continue
+                    if got != want:
+                        fails.append(f"step {si} {st}: get_downsampled_scatter -> {got}, "
+                                     f"downsample_grid on the selected events -> {want}")
+                        continue
+                    if got != "ok":
+                        continue
+                    mask = np.zeros(n, dtype=bool)
+                    mask[np.where(allm)[0]] = np.asarray(idx, dtype=bool)
+                    if not _same(out[0], a[mask]) or not _same(out[1], b[mask]):
+                        fails.append(f"step {si} {st}: returned x, y are not the features at the "
+                                     f"selection of the pure function ({len(out[0])} vs {int(mask.sum())} events)")
+                    if ret_mask and not _same(out[2], mask):
+                        fails.append(f"step {si} {st}: returned mask {bits(out[2])[:60]} differs from the "
+                                     f"mask of the pure function {bits(mask)[:60]}")
+                    if mutate:          # a caller may do what it likes with what it was given
+                        for arr in out:
+                            try:
+                                if arr.dtype == bool:
+                                    arr[...] = ~arr
+                                else:
+                                    arr[...] = -7.0
+                            except ValueError:
+                                pass    # read-only results are fine
+                    continue
+                if kind == "manual":
+                    for i, bnew in st[1]:
+                        ds.filter.manual[i] = bool(bnew)
+                        manual[i] = bool(bnew)
+                elif kind == "range":
+                    rng_idx = st[1]
+                    cfg = ds.config["filtering"]
+                    if rng_idx is None:
+                        cfg.pop("index min", None)
+                        cfg.pop("index max", None)
+                    else:
+                        cfg["index min"], cfg["index max"] = rng_idx
+                elif kind == "limit":
+                    limit = int(st[1])
+                    ds.config["filtering"]["limit events"] = limit
+                elif kind == "reset":
+                    ds.reset_filter()            # min/max keys survive (O3)
+                    manual[:] = True
+                    limit = 0
+                if rec is not None:
+                    with rec:
+                        ds.apply_filter()
+                else:
+                    ds.apply_filter()
+                got_all = np.array(ds.filter.all, dtype=bool)
+                exp_all, pre = expected_all()
+                trace.append(bits(got_all))
+                if not np.array_equal(got_all, exp_all):
+                    what = "limit events" if (limit > 0 and int(pre.sum()) > limit) else "filter"
+                    fails.append(f"step {si} {st}: ds.filter.all = {bits(got_all)[:60]} but the {what} "
+                                 f"specifies {bits(exp_all)[:60]} (eligible {bits(pre)[:60]})")
+                    # keep the expectation of later steps tied to the settings, not to the failure
+                else:
+                    fr = fresh_all()
+                    if not np.array_equal(got_all, fr):
+                        fails.append(f"step {si} {st}: ds.filter.all differs from a fresh dataset with "
+                                     f"the same settings")
+            except Exception as e:  # noqa
+                fails.append(f"step {si} {st}: raised {e!r}"[:200])
+                break
+    return "ok " + str(len(trace)), fails
+
+
 def classify(case, aux=None):
     """('F16'|'F17'|None, thinning?, float cells agree with exact cells?)"""
+    if case["fn"] == "seq":
+        reqs = [tuple(s[1:5]) for s in case["steps"] if s[0] == "scatter"]
+        return None, len(reqs) != len(set(reqs)) or any(s[0] == "limit" for s in case["steps"]), True
     a = np.array([untok(t) for t in case["a"]], dtype=np.float64)
     k, ri = case["k"], case["ri"]
     if case["fn"] == "rand":
@@ -405,7 +634,9 @@ def evaluate(case, rec=None):
     """run one case on the .so (recording choice) and on the source text"""
     res = {}
     aux = None
-    if case["fn"] in ("ds", "limit"):
+    if case["fn"] == "seq":
+        res["so"] = run_seq(case, rec)
+    elif case["fn"] in ("ds", "limit"):
         ans, fails, aux = run_ds(case, rec)
         res["so"] = (ans, fails)
     else:
@@ -446,6 +677,9 @@ def fails_spec(case):
 
 def shrink(case):
     """delta-debug the events (pairs) of a failing case; the request is re-tried smaller too"""
+    if case["fn"] == "seq":
+        steps = common.ddmin(case["steps"], lambda st: fails_spec(dict(case, steps=st)), max_tests=200)
+        return dict(case, steps=steps)
     if "b" in case:
         rows = list(zip(case["a"], case["b"], range(len(case["a"]))))
     else:
@@ -540,12 +774,16 @@ def run(ctx):
         ctx.violation("spec", f"np.random.choice: {b}", {"correspondence": "ChoiceOK"})
     model_out = ctx.lean("C16", lines) if (ctx.lean_ok and lines) else []
     mirror_bad = []
+    reported = 0
     for c, (res, cls, thin, agree), slot in zip(cases, results, slots):
         ans_so, fails_so = res["so"]
-        ctx.case((c["fn"], c["a"], c.get("b"), c["k"], c["ri"], c.get("excl"), c.get("xs"),
-                  c.get("ys")), nontrivial=bool(thin),
-                 sample={"fn": c["fn"], "n": len(c["a"]), "k": c["k"], "remove_invalid": c["ri"],
+        ctx.case((c["fn"], c["a"], c.get("b"), c.get("k"), c.get("ri"), c.get("excl"), c.get("xs"),
+                  c.get("ys"), c.get("steps")), nontrivial=bool(thin),
+                 sample={"fn": c["fn"], "n": len(c["a"]), "k": c.get("k"),
+                         "remove_invalid": c.get("ri"), "steps": (c.get("steps") or [])[:6],
                          "answer": ans_so[:60]} if thin else None)
+        if c["fn"] == "seq":
+            ctx.stat("seq_steps", len(c["steps"]))
         ctx.stat("fn=" + c["fn"])
         ctx.stat("events", len(c["a"]))
         ctx.stat("answer=" + ans_so.split(" ")[0])
@@ -554,11 +792,16 @@ def run(ctx):
         if not agree:
             ctx.stat("skipped_near_discontinuity")
         bad = spec_failure(c, res, cls)
+        if bad is not None and reported >= 4:
+            reported += 1
+            continue
         if bad is not None:
             small = shrink(c)
             r2 = evaluate(small)
             b2 = spec_failure(small, r2, classify(small, r2["aux"])[0]) or bad
-            ctx.violation("spec", f"{c['fn']} ({b2[0]}): {b2[1]}", dict(small, impl=b2[0]))
+            if reported < 4:
+                ctx.violation("spec", f"{c['fn']} ({b2[0]}): {b2[1]}", dict(small, impl=b2[0]))
+            reported += 1
             continue
         if cls in ("F16", "F17") and ans_so.startswith("err"):
             ctx.stat("known_" + cls)
